@@ -271,6 +271,57 @@ fn check_detector_file(seqs: &[Vec<u16>], as_contract: bool, nested: bool, rng: 
     }
 }
 
+/// like check_detector_file, for member lists too long for the exact bin-packing oracle: a lower bound on the optimum
+/// (ceil(total bits / 256)) decides "already optimal", the two sort directions decide "must be reported".
+fn check_detector_file_long(seqs: &[Vec<u16>], as_contract: bool, rng: &Rng, acc: &mut Acc) {
+    let mut text = String::from("pragma solidity 0.8.17;\n");
+    let mut starts: Vec<usize> = vec![];
+    for (i, seq) in seqs.iter().enumerate() {
+        starts.push(text.len());
+        text.push_str(&if as_contract { format!("contract L{} {{\n", i) } else { format!("struct L{} {{\n", i) });
+        for (j, &bits) in seq.iter().enumerate() {
+            let tys = types_of_size(bits, !as_contract);
+            text.push_str(&format!("  {} q{}_{};\n", rng.pick(&tys), i, j));
+        }
+        text.push_str("}\n");
+    }
+    let parsed = match solang_parser::parse(&text, 0) {
+        Ok(p) => p.0,
+        Err(_) => {
+            acc.discards += 1;
+            return;
+        }
+    };
+    let det = if as_contract { Det::Opt(solstat::analyzer::optimizations::Optimization::PackStorageVariables) } else { Det::Opt(solstat::analyzer::optimizations::Optimization::PackStructVariables) };
+    let dname = if as_contract { "pack_storage" } else { "pack_struct" };
+    let locs = match guarded(std::panic::AssertUnwindSafe(|| det.locs(parsed.clone()))) {
+        Ok(l) => l,
+        Err((m, l)) => {
+            acc.violation(format!("{}:panic", dname), json!({"panic": m, "at": l, "members": seqs[0].len()}));
+            return;
+        }
+    };
+    let reported: std::collections::HashSet<usize> = locs.iter().map(|l| l.start()).collect();
+    for (i, seq) in seqs.iter().enumerate() {
+        acc.eval();
+        let decl = model_slots(seq);
+        let total: u64 = seq.iter().map(|x| *x as u64).sum();
+        let lower = ((total + 255) / 256) as u32;
+        let mut asc = seq.clone();
+        asc.sort();
+        let mut desc = asc.clone();
+        desc.reverse();
+        let is_rep = reported.contains(&starts[i]);
+        acc.nontrivial_h(hash_str(&format!("long{}{:?}", dname, seq)));
+        if is_rep && decl == lower {
+            acc.violation(format!("{}:unsound", dname), json!({"members": seq.len(), "total_bits": total, "declared_slots": decl, "lower_bound_on_any_order": lower, "reported": true}));
+        }
+        if !is_rep && model_slots(&asc) < decl && model_slots(&desc) < decl {
+            acc.violation(format!("{}:missed", dname), json!({"members": seq.len(), "total_bits": total, "declared_slots": decl, "asc_slots": model_slots(&asc), "desc_slots": model_slots(&desc), "tail_sizes": seq.iter().filter(|x| **x != 256).collect::<Vec<_>>(), "reported": false}));
+        }
+    }
+}
+
 fn nth_seq(mut idx: u64, len: usize) -> Vec<u16> {
     let mut v = vec![0u16; len];
     for i in (0..len).rev() {
@@ -383,7 +434,7 @@ pub fn run(ctx: &Ctx) -> i32 {
 
     // 3. detectors: exhaustive small lengths, packed 1000 per file
     let per_file = 1000u64;
-    let (max_len_struct, max_len_contract) = ctx.tier.pick((3usize, 2usize), (5usize, 4usize));
+    let (max_len_struct, max_len_contract) = ctx.tier.pick((3usize, 3usize), (5usize, 4usize));
     for (as_contract, max_len) in [(false, max_len_struct), (true, max_len_contract)] {
         for len in 0..=max_len {
             let total = 32u64.pow(len as u32);
@@ -421,6 +472,32 @@ pub fn run(ctx: &Ctx) -> i32 {
             })
             .collect();
         check_detector_file(&seqs, as_contract, rng.chance(1, 2), rng, acc);
+    });
+
+    // 3c. very long member lists through the detectors (totals around and beyond 65 536 bits)
+    let n_long_det = ctx.tier.pick(40u64, 600u64);
+    run_workload(ctx, &mut acc, "det-long", n_long_det, |k, rng, acc| {
+        let as_contract = k % 2 == 0;
+        let seqs: Vec<Vec<u16>> = (0..4)
+            .map(|j| {
+                let full = rng.range(250, 262);
+                let mut s: Vec<u16> = vec![256; full];
+                let tail: &[u16] = match (k as usize + j) % 4 {
+                    0 => &[128, 256, 128],
+                    1 => &[8, 256, 8],
+                    2 => &[128, 128],
+                    _ => &[8, 248, 16, 240],
+                };
+                let at = rng.below(s.len() + 1);
+                for (i, t) in tail.iter().enumerate() {
+                    s.insert((at + i).min(s.len()), *t);
+                }
+                s
+            })
+            .collect();
+        // the exact optimum is not computable by the subset DP at this size; judge with a lower bound and the sort-based clause
+        check_detector_file_long(&seqs, as_contract, rng, acc);
+        acc.cov("det:long-member-lists");
     });
 
     // coverage floors
